@@ -50,7 +50,7 @@ def geometry(name, s=1.0, terminals=True, holes=True, probes=True):
     elif name == "G3":  # tee, three terminals of different lengths
         a = P("film", points=box(7.0, 2.0, points=44))
         b = P("stem", points=box(1.6, 3.0, points=24, center=(0.4, -2.0)))
-        film = P("film", points=a.union(b).points * s)
+        film = P("film", points=a.union(b).resample(61).points * s)
         term = [
             P("left", points=box(0.2, 2.0, center=(-3.5, 0.0)) * s),
             P("right", points=box(0.2, 1.4, center=(3.5, 0.2)) * s),
@@ -60,7 +60,7 @@ def geometry(name, s=1.0, terminals=True, holes=True, probes=True):
     elif name == "G4":  # cross, four terminals
         a = P("film", points=box(7.0, 1.8, points=46))
         b = P("v", points=box(1.6, 6.2, points=42, center=(0.3, 0.1)))
-        film = P("film", points=a.union(b).points * s)
+        film = P("film", points=a.union(b).resample(67).points * s)
         term = [
             P("w", points=box(0.2, 1.8, center=(-3.5, 0.0)) * s),
             P("e", points=box(0.2, 1.3, center=(3.5, 0.1)) * s),
